@@ -349,3 +349,59 @@ def cross_bad(L, V, L2, V2, rtol=3e-3):
     cross = abs(L * V2 - L2 * V)
     scale = abs(L * V2) + abs(L2 * V) + 1e-6
     return cross > rtol * scale + 1e-5 or (V > 1e-2 and L <= 1e-6) or (V2 > 1e-2 and L2 <= 1e-6)
+
+
+# ----------------------------------------------------------------------------- constants the statement leaves open
+def _consts(ts):
+    seen, out, stack = set(), {}, list(ts)
+    while stack:
+        x = stack.pop()
+        if not isinstance(x, z3.ExprRef) or x.get_id() in seen:
+            continue
+        seen.add(x.get_id())
+        if z3.is_const(x) and x.decl().kind() == z3.Z3_OP_UNINTERPRETED:
+            out[x.get_id()] = x
+        stack.extend(x.children())
+    return list(out.values())
+
+
+def identify_ratio(num, den, assumptions=(), seed=0, tries=12):
+    """The statement fixes some quantities only up to a positive constant c (num = c * den for all inputs).  The constant
+    is identified exactly from the two terms at one generic point: uninterpreted applications are Ackermannised, every
+    free symbol gets a small rational (all congruence constraints and the assumptions must hold there), and
+    c = num / den is computed in exact rational arithmetic.  The identity num == c * den is then PROVED for all inputs
+    by the solver; identification alone decides nothing.  Returns (Fraction | None, description)."""
+    import random
+    ack = solve.Ackermann()
+    n2, d2 = ack.walk(num), ack.walk(den)
+    asm = [ack.walk(a) for a in assumptions if isinstance(a, z3.ExprRef)]
+    cong = ack.congruence()
+    cs = _consts([n2, d2] + asm + cong)
+    rng = random.Random(seed + 12345)
+    for _ in range(tries):
+        sub = []
+        used = set()
+        for c in cs:
+            if z3.is_bool(c):
+                sub.append((c, z3.BoolVal(rng.random() < 0.5)))
+            elif z3.is_int(c):
+                sub.append((c, z3.IntVal(rng.randint(0, 3))))
+            elif z3.is_real(c):
+                while True:
+                    v = Fraction(rng.randint(64, 640), 128)
+                    if v not in used:
+                        used.add(v)
+                        break
+                sub.append((c, z3.RealVal(v)))
+        # the point must satisfy the assumptions and be consistent with functional congruence (constants of
+        # uninterpreted sorts, e.g. PRNG keys, stay free here)
+        chk = z3.Solver()
+        chk.set("timeout", 10000)
+        chk.add([z3.substitute(f, *sub) for f in asm + cong])
+        if chk.check() != z3.sat:
+            continue
+        nv, dv = z3.simplify(z3.substitute(n2, *sub)), z3.simplify(z3.substitute(d2, *sub))
+        if z3.is_rational_value(nv) and z3.is_rational_value(dv) and dv.as_fraction() != 0:
+            c = Fraction(nv.as_fraction()) / Fraction(dv.as_fraction())
+            return c, f"c = {c} identified at one generic point (exact rational evaluation of both terms)"
+    return None, "no generic point found"
